@@ -442,5 +442,18 @@ func VerifC01NumLabels() {
 	vAssert(vStrEq(string(b2.Bytes()), string(b3.Bytes())), "C01.num.reserialize: the parsed profile does not re-serialize to identical bytes")
 	c := q.Copy()
 	vAssert(c != nil && c.CheckValid() == nil, "C01.num.copy: the parsed profile cannot be copied")
+	// nothing of an earlier serialization may stick: remove the labels of the
+	// (already written) profile and of the (already parsed) one, write again
+	for _, pr := range []*Profile{p, q} {
+		pr.Sample[0].Label, pr.Sample[0].NumLabel, pr.Sample[0].NumUnit = nil, nil, nil
+		var b4 bytes.Buffer
+		pr.WriteUncompressed(&b4)
+		r, err := ParseUncompressed(b4.Bytes())
+		ok := err == nil
+		if ok {
+			ok = len(r.Sample) == 1 && len(r.Sample[0].Label) == 0 && len(r.Sample[0].NumLabel) == 0 && len(r.Sample[0].NumUnit) == 0
+		}
+		vAssert(ok, "C01.num.stale: labels removed from a profile that had been serialized before are written out again")
+	}
 	vObserve(len(gv), len(gu))
 }
